@@ -15,6 +15,25 @@ static CAPTURED: [&[u8]; 7] = [
     include_bytes!("/repo/assets/captured/vi.input"),
 ];
 
+use std::sync::atomic::{AtomicBool, Ordering};
+static DEEP: AtomicBool = AtomicBool::new(false);
+
+/// thorough tier: longer sessions, more foreign steps, larger enumeration bounds
+pub fn set_deep(on: bool) {
+    DEEP.store(on, Ordering::Relaxed);
+}
+pub fn deep() -> bool {
+    DEEP.load(Ordering::Relaxed)
+}
+/// an enumeration bound, doubled in the thorough tier
+pub fn bound(quick: usize) -> usize {
+    if deep() {
+        quick * 2
+    } else {
+        quick
+    }
+}
+
 #[derive(Clone, Copy, Debug, PartialEq, Eq)]
 pub enum Focus {
     Any,
@@ -1112,10 +1131,11 @@ pub fn trace(prop: &str, seed: u64, index: u64, p: &Profile) -> Trace {
     let has_resizer = rc.chance(p.resizer_pct as u64, 100);
     let has_operator = rc.chance(p.operator_pct as u64, 100);
     let corrupting = !chars && rc.chance(p.corrupt_pct as u64, 100);
+    let max_len = if deep() { (p.max_len * 3).min(1500) } else { p.max_len };
     let len = match rc.below(10) {
         0..=4 => rc.range(3, 40),
-        5..=7 => rc.range(20, 120),
-        _ => rc.range(60, p.max_len.max(61) as u64),
+        5..=7 => rc.range(20, if deep() { 300 } else { 120 }),
+        _ => rc.range(60, max_len.max(61) as u64),
     } as usize;
 
     let mut fc = FaultCounts::default();
@@ -1135,7 +1155,7 @@ pub fn trace(prop: &str, seed: u64, index: u64, p: &Profile) -> Trace {
     let resizer_left = if has_resizer { rs.range(1, 4) } else { 0 };
     let operator_w: u32 = if has_operator { *rs.pick(&[1u32, 4, 12]) } else { 0 };
     let mut resizer_left = resizer_left;
-    let mut foreign_budget: i64 = 60;
+    let mut foreign_budget: i64 = if deep() { 160 } else { 60 };
     let mut cur = g;
 
     let mut steps: Vec<Step> = Vec::new();
